@@ -126,7 +126,18 @@ func runBehaviour(steps []step, salt byte, bucketsEarly bool) (int, string, stri
 		res := "ok"
 		switch s.Op {
 		case "set":
-			if err := bucket(ldb, s.B).Set(keyOf(s.K, salt), conc(s.V, salt)); err != nil {
+			// the layer stores the value it was given AT THE CALL: the caller's buffer is reused (overwritten) right after
+			// the call, as callers that encode into a scratch buffer do; what is read back later must be unaffected
+			var vbuf []byte
+			if v := conc(s.V, salt); v != nil {
+				vbuf = make([]byte, len(v))
+				copy(vbuf, v)
+			}
+			err := bucket(ldb, s.B).Set(keyOf(s.K, salt), vbuf)
+			for i := range vbuf {
+				vbuf[i] ^= 0xa5
+			}
+			if err != nil {
 				res = "error"
 			}
 		case "delete":
